@@ -155,6 +155,47 @@ def run(ctx):
                                 'above the largest modulus is dropped from the text, so printing and parsing back gives a different (smaller) value')
     ctx.floor(R5, n_f, 2, 'fields printed through unit accessors with remainders')
 
+    R6 = 'C19-R6'
+    ctx.rule(R6, 'printing and parsing of a calendar type go through ONE calendar: where FromStr of a value type converts text into its day / '
+                 'millisecond number with the chrono crate, Display (and the field accessors EXTRACT uses: year / month / day) converts the '
+                 'number back with chrono as well, and vice versa. A second, hand-written civil-from-days computation has to agree with chrono '
+                 'on every date, including the proleptic years before 0000-03-01 where truncating division and floor division differ')
+    n_cal = 0
+    for ty in OWNED:
+        sides = {}
+        for i in prog.impls:
+            if i['self_adt'] != ty or i.get('trait') not in ('std::fmt::Display', 'std::str::FromStr'):
+                continue
+            for m in i['items']:
+                mb = prog.bodies.get(m)
+                if mb is None or not (m.endswith('::fmt') or m.endswith('::from_str')):
+                    continue
+                calls = set()
+                todo, seen = [mb.root], set()
+                while todo:                          # the impl and the methods of the type it calls (year(), ymd() ..)
+                    r = todo.pop()
+                    if r in seen:
+                        continue
+                    seen.add(r)
+                    for g in prog.group(r):
+                        for c in g.calls:
+                            if (c.fn or '').startswith('chrono'):
+                                calls.add(c.fn)
+                            for cn in prog.callee_bodies(c):
+                                if cn.startswith(ty + '::') and len(seen) < 12:
+                                    todo.append(prog.bodies[cn].root)
+                sides[i['trait'].rsplit('::', 1)[-1]] = (mb, calls)
+        if len(sides) == 2 and any(c for _, c in sides.values()):
+            n_cal += 1
+            both = all(c for _, c in sides.values())
+            ctx.functions_analysed.update(b_.name for b_, _ in sides.values())
+            ctx.ob(R6, f'{short(ty)}·print-and-parse-share-the-calendar', both,
+                   f'{ty}: Display uses chrono: {bool(sides["Display"][1])}; FromStr uses chrono: {bool(sides["FromStr"][1])}',
+                   [b_.loc for b_, _ in sides.values()],
+                   what=f'{short(ty)} is parsed with chrono and printed with its own date arithmetic (or the other way round): the two calendars '
+                        'disagree outside the range somebody tried (dates before 0000-03-01 print as 0000-03-00, -0042--8--16 and do not parse back)')
+    ctx.floor(R6, n_cal, 3, 'calendar types with Display and FromStr')
+
 
 def delegation(prog, impl, tr):
     """A manual relation next to a derived equality is accepted only when it is the derived relation of the wrapped value:
